@@ -36,6 +36,16 @@ def generate(rng, tier):
             cases[-1]["preT"] = [rng.choice([1, 2, T + 1, max(1, T - 1), 2 * T])]; cases[-1]["kw"] = rng.choice([0, 2]); cases[-1]["family"] += "/after-sibling-call"
         elif r < 0.22:
             cases[-2]["kw"] = rng.choice([1, 2]); cases[-1]["kw"] = 2; cases[-2]["family"] += "/keyword-arguments"; cases[-1]["family"] += "/keyword-arguments"
+    # two moves that differ in one argument only, -1 against -2 (equal hashes in CPython: a table keyed by hash() confuses them), and
+    # 0 against -0 / 1 against True-like neighbours: the second call must not receive the first one's answer
+    for _ in range(40 if tier == "quick" else 1500):
+        T, rate, accel, jerk, fam = ebbgen.gen_t3(rng)
+        f = rng.choice(["rate", "accel", "jerk"]); a, b = rng.choice([(-1, -2), (-2, -1), (-1, -2), (0, 1), (1, 2)])
+        base = {"T": T, "rate": rate, "accel": accel, "jerk": jerk}; base[f] = a
+        if not ebbgen.t3_in_domain(base["T"], base["rate"], base["accel"], base["jerk"]): continue
+        acc = ebbgen.pick_acc(rng); amb = rng.randrange(len(AMBIENT))
+        kind = rng.choice(["d", "r"]) if base["jerk"] != 0 else "r"
+        cases.append(dict(base, kind=kind, acc=acc, amb=amb, over=[{f: b}], kw=rng.choice([0, 0, 2]), family="after-call-differing-in-one-argument/%s" % f))
     return cases
 
 def _clear(c):
@@ -53,6 +63,13 @@ def run_impl(c):
     kw = c.get("kw", 0)
     setattr(mpmath.mp, k, v)
     try:
+        for ov in c.get("over", []):
+            d = dict(c, **ov)
+            try:
+                if c["kind"] == "r": ebbgen.call(ebb_calc.rate_t3, (d["T"], d["rate"], d["accel"], d["jerk"]), kw)
+                else: _dist(d, d["acc"], kw)
+            except Exception: pass
+            setattr(mpmath.mp, k, v)
         if c["kind"] == "r":
             for t0 in c.get("preT", []):
                 ebbgen.call(ebb_calc.rate_t3, (t0, c["rate"], c["accel"], c["jerk"]), kw)
